@@ -298,7 +298,11 @@ InstSet(i, n, v, route) ==
                 /\ I' = [I EXCEPT ![i].vals[n] = IF frozen THEN @ ELSE val, ![i].ip[n] = IF mk THEN Len(P) + 1 ELSE @]
                 /\ cells' = IF isnew THEN Append(cells, 0) ELSE cells
                 /\ UNCHANGED cdict
-                /\ Rec("instset", [i |-> i, n |-> n, v |-> v, route |-> route], "ok", P', cdict, cells', I', {})
+                \* chg: does the value the instance shows change?  (decides whether a changes-only watcher of the instance runs;
+                \*  stated for plain integers only -- "free" otherwise)
+                /\ Rec("instset", [i |-> i, n |-> n, v |-> v, route |-> route,
+                                   chg |-> IF frozen \/ val.t # "int" \/ cur.t # "int" THEN "free" ELSE IF val # cur THEN "yes" ELSE "no",
+                                   old |-> cur], "ok", P', cdict, cells', I', {})
 
 \* `i.param[n].bounds = b` : per-instance Parameter attribute
 InstMeta(i, n, b) ==
